@@ -198,8 +198,17 @@ class UdpClient(object):
 
                     if r:
                         datagram, addr = self.sock.recvfrom(Packet.RECV_SIZE)
-                        hdr = PacketHeader.from_bytes(False, datagram)
-                        self.conn._recv_datagram(hdr, datagram)
+                        try:
+                            hdr = PacketHeader.from_bytes(False, datagram)
+                        except Exception as e:
+                            # anyone can send anything to this socket.
+                            # a datagram without a valid header is dropped.
+                            # it must not prevent the send half below
+                            hdr = None
+                            self.conn.log.debug("dropping packet (%d bytes): %s", len(datagram), e)
+
+                        if hdr is not None:
+                            self.conn._recv_datagram(hdr, datagram)
 
                     t0 = self.conn.clock()
                     if t0 - self.conn.last_send_time > self.conn.send_interval:
